@@ -721,6 +721,7 @@ func (fsm *fsm) stateChange(nextState bgp.FSMState, reason *fsmStateReason) {
 			conf.AfiSafis[i].MpGracefulRestart.State.Received = false
 			conf.AfiSafis[i].LongLivedGracefulRestart.State.Enabled = false
 			conf.AfiSafis[i].LongLivedGracefulRestart.State.Received = false
+			conf.AfiSafis[i].LongLivedGracefulRestart.State.PeerRestartTimerExpired = false
 		}
 		gr, ok := fsm.capMap[bgp.BGP_CAP_GRACEFUL_RESTART]
 		if conf.GracefulRestart.Config.Enabled && ok {
